@@ -340,7 +340,7 @@ impl Run {
 
     /// Confirm failures by replaying them, classify against known findings, write replay files
     /// and the evidence file, print the verdict lines, and return the exit code.
-    pub fn finish(mut self, replay: &dyn Fn(&J) -> Result<(), (String, String)>) -> i32 {
+    pub fn finish(mut self, replay: &(dyn Fn(&J) -> Result<(), (String, String)> + Sync)) -> i32 {
         let known = load_known_findings();
         let mut violations = 0;
         let mut known_hits = 0;
@@ -371,7 +371,42 @@ impl Run {
             if !ok && free {
                 println!("NOTE: {}: the free-running pass observed {:?} ({}); repeating the pass did not observe it again — reported as observed", self.prop, f.sig, f.detail);
             }
+            // not reproducible when replayed alone: does it reproduce when several threads replay it
+            // at once? (the enumeration itself runs on 16 threads; a subject whose answers depend on
+            // what other threads are doing fails there and not in a sequential replay)
+            let mut contended = false;
             if !ok && !free {
+                // all failing cases are replayed in rotation by 8 threads (the case in question on
+                // thread 0): interference needs the *other* cases, as in the enumeration itself
+                let hit = std::sync::atomic::AtomicBool::new(false);
+                let t0 = std::time::Instant::now();
+                let others: Vec<&Failure> = fails.iter().filter(|g| g.case.get("free_running").is_none()).take(64).collect();
+                std::thread::scope(|sc| {
+                    for t in 0..8usize {
+                        let (hit, others) = (&hit, &others);
+                        sc.spawn(move || {
+                            let mut k = t * 7;
+                            while !hit.load(std::sync::atomic::Ordering::Relaxed) && t0.elapsed().as_secs() < 5 {
+                                if t < 3 {
+                                    if let Err((s1, _)) = replay(&f.case) {
+                                        if s1 == f.sig {
+                                            hit.store(true, std::sync::atomic::Ordering::Relaxed);
+                                        }
+                                    }
+                                } else if !others.is_empty() {
+                                    let _ = replay(&others[k % others.len()].case);
+                                    k += 1;
+                                }
+                            }
+                        });
+                    }
+                });
+                contended = hit.load(std::sync::atomic::Ordering::Relaxed);
+                if contended {
+                    println!("NOTE: {}: {:?} does not fail when its case is replayed alone but does while other threads replay the other failing cases: the subject's behaviour depends on what other threads are doing", self.prop, f.sig);
+                }
+            }
+            if !ok && !free && !contended {
                 machinery(&format!(
                     "{}: failure not reproducible on replay (uncontrolled nondeterminism?) sig={} first={:?} replay1={:?} replay2={:?} case={}",
                     self.prop, f.sig, f.detail, r1, r2, f.case
